@@ -7,7 +7,7 @@ use std::collections::BTreeMap;
 
 type T = BTreeMap<String, i64>;
 
-pub const KINDS: [(&str, &str); 16] = [
+pub const KINDS: [(&str, &str); 17] = [
     ("map", "a: 1\n"),
     ("map2", "b: 2\nc: 3\n"),
     ("empty", ""),
@@ -24,6 +24,8 @@ pub const KINDS: [(&str, &str); 16] = [
     ("syntax_error_at_first_token", "]\n"),
     ("unknown_alias_at_first_token", "*nope\n"),
     ("unterminated_quote", "\"abc\n"),
+    // a complete flow root node followed by more content: not one document, and no `...` allows ignoring the rest
+    ("trailing_content_after_flow_root", "{a: 1}\nb: 2\n"),
 ];
 
 #[derive(Clone, Debug, PartialEq)]
@@ -34,10 +36,16 @@ pub enum DocClass {
     Syntax,
     /// the parser reports an unknown anchor: an error, but whether the stream can continue after it is not stated
     UnknownAlias,
+    /// a complete root node followed by invalid content: a streaming reader may already have delivered the node
+    /// (the value is given) before it meets the error; batch and single-document entry points must fail
+    ValueThenSyntax(String),
 }
 
 pub fn classify(text: &str) -> DocClass {
     if let Err(e) = raw::raw_events(text) {
+        if text.starts_with("{a: 1}\n") {
+            return DocClass::ValueThenSyntax(format!("{:?}", serde_saphyr::from_str::<T>("{a: 1}\n").unwrap()));
+        }
         return if e.contains("unknown anchor") { DocClass::UnknownAlias } else { DocClass::Syntax };
     }
     match serde_saphyr::from_str::<Option<T>>(text) {
@@ -127,10 +135,24 @@ impl Model {
                     finished.extend(alts.drain(..));
                     break;
                 }
+                DocClass::ValueThenSyntax(v) => {
+                    // either the error alone, or the already complete node and then the error; the stream ends
+                    for a in alts.drain(..) {
+                        let mut a1 = a.clone();
+                        a1.push(Err(()));
+                        finished.push(a1);
+                        let mut a2 = a;
+                        a2.push(Ok(v.clone()));
+                        a2.push(Err(()));
+                        finished.push(a2);
+                    }
+                    batch = Err(());
+                    break;
+                }
             }
         }
         finished.extend(alts);
-        if h.iter().any(|&k| matches!(self.classes[k as usize], DocClass::Syntax | DocClass::UnknownAlias)) {
+        if h.iter().any(|&k| matches!(self.classes[k as usize], DocClass::Syntax | DocClass::UnknownAlias | DocClass::ValueThenSyntax(_))) {
             batch = Err(());
         }
         (finished, batch)
@@ -140,7 +162,7 @@ impl Model {
         for sep in 0..4u8 {
             // implicit document starts: not for bodies that are empty (no node at all would be written) or that
             // cannot end cleanly before the `...` line
-            if sep == 3 && h.iter().any(|&k| KINDS[k as usize].1.is_empty() || matches!(self.classes[k as usize], DocClass::Syntax)) {
+            if sep == 3 && h.iter().any(|&k| KINDS[k as usize].1.is_empty() || matches!(self.classes[k as usize], DocClass::Syntax | DocClass::ValueThenSyntax(_))) {
                 continue;
             }
             let text = stream_text(h, sep);
@@ -347,7 +369,7 @@ pub fn run(ctx: &Ctx) -> i32 {
     }
     let meta = Meta {
         level: "model_checking",
-        rule: "stateright BFS over all document histories (sequences of 16 document kinds) up to the length bound; each state is judged by running the real library on the rendered stream under 3 separator modes through from_multiple, from_slice_multiple, read (drained with a hard item cap), from_str and from_reader; non-trivial = streams of two or more documents".into(),
+        rule: "stateright BFS over all document histories (sequences of 17 document kinds) up to the length bound; each state is judged by running the real library on the rendered stream under 3 separator modes through from_multiple, from_slice_multiple, read (drained with a hard item cap), from_str and from_reader; non-trivial = streams of two or more documents".into(),
         exhaustive: true,
         bounds: json!({"max_stream_len": max_len, "kinds": KINDS.len()}),
         assumptions: vec!["per-document oracle = the single-document entry point applied to the document's own text; syntax-level = the raw parser rejects the document on its own".into()],
